@@ -16,7 +16,19 @@ ENV = dict(os.environ, GOFLAGS="-mod=mod", GOPROXY="off", GOSUMDB="off", GOTOOLC
 def load_mutants():
     spec = importlib.util.spec_from_file_location("mutants", os.path.join(VERIF, "testdata", "mutants.py"))
     m = importlib.util.module_from_spec(spec); spec.loader.exec_module(m)
-    return m.MUTANTS
+    mus = list(m.MUTANTS)
+    # seeded changes written by independent sub-agents (see seeded/<id>/meta.json)
+    sd = os.path.join(VERIF, "seeded")
+    if os.path.isdir(sd):
+        for d in sorted(os.listdir(sd)):
+            mp = os.path.join(sd, d, "meta.json")
+            if not os.path.exists(mp):
+                continue
+            meta = json.load(open(mp))
+            mus.append({"name": "seed-" + d, "props": meta.get("detected_by") or meta["properties"], "rules": {},
+                        "patchfile": os.path.join(sd, d, "patch.diff"), "edits": [], "expect": None,
+                        "expected_miss": meta.get("expected_miss", False)})
+    return mus
 
 def run_one(mu, props_filter):
     name = mu["name"]
@@ -36,6 +48,10 @@ def run_one(mu, props_filter):
                 pr = subprocess.run(["patch", "-R", "-p1", "-s", "-i", os.path.join(VERIF, mu["revert"])], cwd=repo, capture_output=True, text=True)
                 if pr.returncode != 0:
                     return (name, "skipped", "fix patch does not reverse-apply: " + (pr.stderr + pr.stdout)[-200:])
+        if mu.get("patchfile"):
+            pr = subprocess.run(["patch", "-p1", "-s", "-i", mu["patchfile"]], cwd=repo, capture_output=True, text=True)
+            if pr.returncode != 0:
+                return (name, "skipped", "seed patch does not apply: " + (pr.stderr + pr.stdout)[-200:])
         for ed in mu.get("edits", []):
             path = os.path.join(repo, ed["file"])
             src = open(path).read()
@@ -60,6 +76,8 @@ def run_one(mu, props_filter):
             results.append("%s: exit=%d hit=%s rule_ok=%s expect_ok=%s" % (p, c.returncode, hit, rule_ok, exp_ok))
             if not hit or not rule_ok:
                 results.append("    " + "\n    ".join(out.splitlines()[-6:]))
+        if not ok and mu.get("expected_miss"):
+            return (name, "miss-ok", "documented limit: " + "; ".join(results)[:200])
         return (name, "caught" if ok else "MISSED", "; ".join(results))
     finally:
         shutil.rmtree(d, ignore_errors=True)
@@ -78,7 +96,7 @@ def main():
         for r in ex.map(lambda m: run_one(m, pf), mus):
             res.append(r)
             print("%-8s %-50s %s" % (r[1], r[0], r[2] if r[1] != "caught" else ""))
-    n = {k: sum(1 for r in res if r[1] == k) for k in ("caught", "MISSED", "skipped", "broken")}
+    n = {k: sum(1 for r in res if r[1] == k) for k in ("caught", "MISSED", "miss-ok", "skipped", "broken")}
     print("selftest:", n)
     if a.json:
         json.dump({"summary": n, "results": res}, open(a.json, "w"), indent=1)
